@@ -32,10 +32,20 @@ func init() {
 	fams := []engine.Family{}
 	for _, sc := range Scenarios {
 		sc := sc
-		fams = append(fams, engine.Family{Name: sc, Run: func(r *engine.Run) { runScenario(r, sc) }})
+		fams = append(fams, engine.Family{Name: sc, Run: func(r *engine.Run) { runScenario(r, sc, false) }})
 	}
 	fams = append(fams, engine.Family{Name: "sharing", Run: runSharing})
 	fams = append(fams, engine.Family{Name: "selfcheck", Run: runSelfCheck, Solo: true})
+	// thorough tier: the base families above run exactly the quick enumeration
+	// (so quick is a subset of thorough by construction); the "+" families then
+	// extend every case to its full preemption bound and count only the
+	// schedules beyond the base bound. They come last and share the remaining
+	// time budget in proportion to their estimated sizes, so that a slow machine
+	// shortens every family a little instead of starving the last ones.
+	for _, sc := range Scenarios {
+		sc := sc
+		fams = append(fams, engine.Family{Name: sc + deepSuffix, ThoroughOnly: true, Run: func(r *engine.Run) { runScenario(r, sc, true) }})
+	}
 	engine.Register(&engine.Check{
 		ID:    "C20",
 		Title: "Runtimes are independent: concurrent use of separate runtimes is race-free",
@@ -57,7 +67,7 @@ func init() {
 		},
 		CrashIsViolation: true,
 		QuickBudget:      100 * time.Second,
-		ThoroughBudget:   14 * time.Minute,
+		ThoroughBudget:   thoroughBudget,
 		Extra:            racePass,
 	})
 }
@@ -252,7 +262,48 @@ func bodySteps() map[int]int {
 const maxViolationsPerCase = 1
 const maxViolationsPerFamily = 3
 
-func runScenario(r *engine.Run, scenario string) {
+const deepSuffix = "+"
+
+const thoroughBudget = 14 * time.Minute
+
+var procStart = time.Now()
+
+// estimate of the number of schedules of a plan (only used to divide the time
+// budget between the "+" families): (total scheduling points)^b / b!.
+func estimate(p plan, steps map[int]int) float64 {
+	total := 0.0
+	for _, l := range p.spec.Bodies {
+		for _, b := range l {
+			total += float64(steps[b])
+		}
+		if p.spec.Scenario == ScCopyBefore || p.spec.Scenario == ScCopyDuring {
+			total += 85
+		}
+		if p.spec.Scenario == ScCopyOnly {
+			total += 64
+		}
+	}
+	e := 1.0
+	for k := 1; k <= p.bound; k++ {
+		e *= total / float64(k)
+	}
+	return e
+}
+
+// deepPlans returns the cases of a scenario whose thorough bound exceeds the
+// base (quick) bound, with that base bound.
+func deepPlans(scenario string, steps map[int]int) (out []plan, base []int) {
+	quick := plans(scenario, false, steps)
+	for i, p := range plans(scenario, true, steps) {
+		if p.bound > quick[i].bound {
+			out = append(out, p)
+			base = append(base, quick[i].bound)
+		}
+	}
+	return out, base
+}
+
+func runScenario(r *engine.Run, scenario string, deep bool) {
 	runtime.GOMAXPROCS(1)
 	solo := &soloCache{m: map[string]string{}}
 	if r.ReplayKey != "" {
@@ -260,42 +311,82 @@ func runScenario(r *engine.Run, scenario string) {
 		return
 	}
 	steps := bodySteps()
-	pl := plans(scenario, r.Thorough(), steps)
-	maxBound := 0
-	completed := true
+	var pl []plan
+	var base []int
+	var deadline time.Time
+	if deep {
+		pl, base = deepPlans(scenario, steps)
+		// time slice of this family: remaining budget x own weight / weight of
+		// this and all later "+" families
+		own, rest := 0.0, 0.0
+		seen := false
+		for _, sc := range Scenarios {
+			if sc == scenario {
+				seen = true
+			}
+			if !seen {
+				continue
+			}
+			dp, _ := deepPlans(sc, steps)
+			w := 0.0
+			for _, p := range dp {
+				w += estimate(p, steps)
+			}
+			if sc == scenario {
+				own = w
+			}
+			rest += w
+		}
+		remaining := time.Until(procStart.Add(thoroughBudget - 15*time.Second))
+		if remaining < 0 {
+			remaining = 0
+		}
+		if rest > 0 {
+			deadline = time.Now().Add(time.Duration(float64(remaining) * own / rest))
+		}
+	} else {
+		// the base enumeration is the quick one in both tiers
+		pl = plans(scenario, false, steps)
+		base = make([]int, len(pl))
+		for i := range base {
+			base[i] = -1
+		}
+	}
+	completed := 0
 	famViolations := 0
+	stopped := false
 	only := os.Getenv("MC_C20_ONLY") // development aid: restrict to cases whose name contains this
-	for _, p := range pl {
+	for i, p := range pl {
 		if only != "" && !strings.Contains(p.spec.Name(), only) {
 			r.Cap("MC_C20_ONLY set: cases filtered")
-			completed = false
 			continue
 		}
-		if p.bound > maxBound {
-			maxBound = p.bound
-		}
-		if r.Expired() {
-			r.Cap("time budget reached before case " + p.spec.Name())
-			completed = false
+		if r.Expired() || (!deadline.IsZero() && time.Now().After(deadline)) {
+			r.Cap(fmt.Sprintf("time budget reached before case %s (%d of %d cases completed)", p.spec.Name(), completed, len(pl)))
+			stopped = true
 			break
 		}
 		if famViolations >= maxViolationsPerFamily {
 			r.Cap(fmt.Sprintf("exploration stopped after %d violating cases", famViolations))
-			completed = false
+			stopped = true
 			break
 		}
-		ok, bad := exploreCase(r, p, solo)
-		if !ok {
-			completed = false
+		ok, bad := exploreCase(r, p, base[i], deadline, solo)
+		if ok {
+			completed++
 		}
 		if bad {
 			famViolations++
 		}
 	}
-	if completed {
+	if !stopped && completed == len(pl) {
 		bounds := map[int]int{}
+		maxBound := 0
 		for _, p := range pl {
 			bounds[p.bound]++
+			if p.bound > maxBound {
+				maxBound = p.bound
+			}
 		}
 		var parts []string
 		for b := 0; b <= maxBound; b++ {
@@ -312,7 +403,7 @@ func runScenario(r *engine.Run, scenario string) {
 // preemptions. Schedules without preemption are executed by every worker (and
 // counted by shard 0); the subtree below each first preemption is owned by one
 // worker (r.Mine on the running index of first-preemption nodes).
-func exploreCase(r *engine.Run, p plan, solo *soloCache) (complete bool, violated bool) {
+func exploreCase(r *engine.Run, p plan, base int, deadline time.Time, solo *soloCache) (complete bool, violated bool) {
 	sp := p.spec
 	want, ok := solo.get(r, sp)
 	if !ok {
@@ -331,7 +422,7 @@ func exploreCase(r *engine.Run, p plan, solo *soloCache) (complete bool, violate
 		if violations >= maxViolationsPerCase && owned {
 			return
 		}
-		if r.Expired() {
+		if r.Expired() || (!deadline.IsZero() && time.Now().After(deadline)) {
 			if complete {
 				r.Cap(fmt.Sprintf("time budget reached inside %s (bound %d not completed)", name, p.bound))
 			}
@@ -346,7 +437,8 @@ func exploreCase(r *engine.Run, p plan, solo *soloCache) (complete bool, violate
 			r.HarnessError(name + "@" + sparse(prefix) + ": " + res.err)
 			return
 		}
-		if owned || count0 {
+		// schedules within the base bound were counted (and checked) by the base family
+		if (owned || count0) && res.preempt > base {
 			r.Eval(res.preempt > 0)
 			r.Tree(int64(len(res.points)-len(prefix)), int64(len(res.points)-len(prefix)))
 			r.Outcome(name + "|" + res.observed())
